@@ -5,6 +5,7 @@ import (
 	"flag"
 	"fmt"
 	"os"
+	"runtime/pprof"
 	"strings"
 	"sync"
 
@@ -134,6 +135,7 @@ func main() {
 		noalias := fs.Bool("noalias", false, "check noalias")
 		unroll := fs.Int("unroll", 3, "default loop bound")
 		asJSON := fs.Bool("json", false, "json output")
+		prof := fs.String("cpuprofile", "", "write cpu profile")
 		fs.Parse(os.Args[2:])
 		args := fs.Args()
 		p, err := gvc.Load(*repo, true)
@@ -144,6 +146,11 @@ func main() {
 		cfg := gvc.DefaultConfig()
 		cfg.Verbose = *verbose
 		cfg.MaxUnroll = *unroll
+		if *prof != "" {
+			f, _ := os.Create(*prof)
+			pprof.StartCPUProfile(f)
+			defer pprof.StopCPUProfile()
+		}
 		for i := 1; i < len(args); i++ {
 			fn := p.LookupFunc(gvc.ModPath+"/"+args[0], args[i])
 			if fn == nil {
